@@ -4,15 +4,15 @@ import z3
 
 from pyvc.verify import Unit, Outcome
 from pyvc.interp import Loop
-from pyvc.values import SInt, SStr, SElem, SBool, Obj, PList, zi, zs, zb, mk_bool
+from pyvc.values import SInt, SStr, SElem, SBool, Obj, PList, zi, zs, zb, mk_bool, mk_int
 from pyvc.runner import BoundedResult
 from .common import Vals, Stubs, real_env, I, cls_name
 
 MANIFEST_ENTRY = {
-    "category": "proof",
-    "text": "contains, starts_with, ends_with, find, `in`, length, concatenation, trim/upper/lower, chr/ord and escape_pattern are proved to apply the corresponding z3 string-theory operation to the raw string payloads for all strings, and the mutual-consistency laws (contains iff find >= 0 iff s = a+t+b, starts_with/ends_with vs. prefix/suffix, |s+t| = |s|+|t|, ord(chr(n)) = n) are z3 lemmas over those specs; split/join, replace, reverse, lines/words, s/sprintf (regex-based or written in Checkerlang) are covered by bounded runtime contracts on the real interpreter",
-    "note": "str.find/startswith/endswith/strip/upper/lower of CPython assumed (idempotence of case mapping and trimming is the host's); regex and Checkerlang-defined functions bounded only",
-    "technique": "deductive verification: pyvc VCs from the real AST + z3/cvc5 string theory; bounded runtime contracts for regex/CKL functions",
+    'category': 'proof',
+    'text': 'contains, starts_with, ends_with, find, `in`, length, concatenation, trim/upper/lower, chr/ord and escape_pattern are proved to apply the corresponding z3 string-theory operation to the raw string payloads for all strings, and the mutual-consistency laws (contains iff find >= 0 iff s = a+t+b, starts_with/ends_with vs. prefix/suffix, |s+t| = |s|+|t|, ord(chr(n)) = n) are z3 lemmas over those specs; split/join, replace, reverse, lines/words, s/sprintf (regex-based or written in Checkerlang) are covered by bounded runtime contracts on the real interpreter; the padding loop of s() (extracted from the real FuncS.execute on every run) leaves the rendered value intact and pads it on the stated side with the stated fill character to exactly max(len, width) characters, for all texts and widths',
+    'note': "str.find/startswith/endswith/strip/upper/lower of CPython assumed (idempotence of case mapping and trimming is the host's); regex and Checkerlang-defined functions bounded only",
+    'technique': 'deductive verification: pyvc VCs from the real AST + z3/cvc5 string theory; bounded runtime contracts for regex/CKL functions',
 }
 PROPERTY = "C18"
 LEVEL = "proof"
@@ -189,6 +189,59 @@ def units(w):
             ("contains(s,'') and starts_with(s,'')", z3.And(z3.Contains(s, z3.StringVal("")), z3.PrefixOf(z3.StringVal(""), s))),
         ]
     U.append(lemma("string-consistency-laws", l_cons, prefer="cvc5"))
+    # ------------------------------------------------------------------ s(): the padding loop of the interpolation
+    # `while len(value) < width: ...` is extracted from the real FuncS.execute on every run (the second loop of the function)
+    # and executed from an arbitrary state (value: any text, width: any int, leading/zeroes: any flags) under its loop
+    # contract.  Dropped by the extraction: the rest of the function (finding the placeholder, evaluating it, splicing the
+    # result back), which stays with the bounded grid.  Obligation: on exit the text is the rendered value intact, padded on
+    # the stated side with the stated fill character to exactly max(len, width) characters.
+    import ast as _ast
+    from pyvc.interp import Frame
+
+    def s_pad(it):
+        fn = w.func("functions.py::FuncS.execute")
+        whiles = [n_ for n_ in _ast.walk(fn.node) if isinstance(n_, _ast.While)]
+        # the second `while` of the function in source order (the first is the scan loop `while True`)
+        loop = whiles[1:2]
+        if len(loop) != 1:
+            it.unsupported("FuncS.execute has no second while loop (the padding loop)")
+        v0 = it.fresh_str("rendered")
+        frame = Frame(fn, fn.module, {"value": v0, "width": it.fresh_int("width"), "leading": it.fresh_bool("leading"), "zeroes": it.fresh_bool("zeroes")})
+        return [], {}, {"fn": fn, "loop": loop[0], "frame": frame, "v0": v0.z}
+
+    def b_pad(it, c):
+        it.s_While(c["loop"], c["frame"])
+        return Outcome("return", c["frame"].locals["value"])
+
+    def flags(st):
+        lz = z3.BoolVal(st["leading"]) if isinstance(st["leading"], bool) else st["leading"].z
+        zz = z3.BoolVal(st["zeroes"]) if isinstance(st["zeroes"], bool) else st["zeroes"].z
+        return lz, zz
+
+    def shape(v, v0, lz, zz):
+        n = z3.Length(v) - z3.Length(v0)
+        blanks, noughts = z3.Star(z3.Re(z3.StringVal(" "))), z3.Star(z3.Re(z3.StringVal("0")))
+        left = z3.And(z3.SuffixOf(v0, v), z3.InRe(z3.SubString(v, 0, n), blanks))
+        leftz = z3.And(z3.SuffixOf(v0, v), z3.InRe(z3.SubString(v, 0, n), noughts))
+        right = z3.And(z3.PrefixOf(v0, v), z3.InRe(z3.SubString(v, z3.Length(v0), n), blanks))
+        return z3.And(n >= 0, z3.If(lz, left, z3.If(zz, leftz, right)))
+
+    def pad_inv(st):
+        v0 = zs(st.old("value"))
+        v, w_ = zs(st["value"]), zi(st["width"])
+        lz, zz = flags(st)
+        return [shape(v, v0, lz, zz), z3.Or(v == v0, z3.Length(v) <= w_)]
+
+    def p_pad(it, c, o):
+        v, v0 = zs(o.value), c["v0"]
+        fr = c["frame"].locals
+        w_ = zi(fr["width"])
+        lz, zz = fr["leading"].z, fr["zeroes"].z
+        it.check("post:the-rendered-value-is-intact-and-padded-on-the-stated-side-with-the-stated-fill-character", shape(v, v0, lz, zz))
+        it.check("post:padded-to-exactly-max(len, width)-characters", z3.Length(v) == z3.If(z3.Length(v0) >= w_, z3.Length(v0), w_))
+    U.append(Unit("functions.py::FuncS.execute", s_pad, p_pad, name="functions.py::FuncS.execute#loop1[padding loop, extracted]", body=b_pad, allowed=(),
+                  loops={"FuncS.execute": {1: Loop(pad_inv, decreases=lambda st: mk_int(zi(st["width"]) - z3.Length(zs(st["value"]))))}},
+                  config={"prefer": "cvc5"}, replay=replay_pairs))
     return U
 
 
